@@ -41,6 +41,9 @@ def setup(checker_name):
     def body_bare(n, x):
         return I.enter_body()
 
+    def body_bare0():
+        return I.enter_body()
+
     def gen(n, x: A):
         I.gen_results.append(isinstance(np.zeros((n,), np.float32), A))
         yield 0
@@ -58,7 +61,8 @@ def setup(checker_name):
         x: A
     I.DC = DC
     I.funcs = {"new": jaxtyped(typechecker=tc)(body), "old": jaxtyped(tc(body)),
-               "none": jaxtyped(typechecker=None)(body_none), "bare": jaxtyped(typechecker=tc)(body_bare)}
+               "none": jaxtyped(typechecker=None)(body_none), "bare": jaxtyped(typechecker=tc)(body_bare),
+               "bare0": jaxtyped(typechecker=tc)(body_bare0)}
     I.gens = {"new": jaxtyped(typechecker=tc)(gen), "none": jaxtyped(typechecker=None)(gen_none)}
     I.A = A
     I.np = np
@@ -71,6 +75,7 @@ class Interp:
     def __init__(self):
         self.prog, self.pc, self.out, self.pending = [], 0, [], None
         self.live_gens = []
+        self.susp_gens = []
         self.gen_results = []
 
     # ---- observation
@@ -83,14 +88,14 @@ class Interp:
 
     def run(self, prog):
         self.prog, self.pc, self.out, self.pending = prog, 0, [], None
-        self.live_gens, self.gen_results = [], []
+        self.live_gens, self.gen_results, self.susp_gens = [], [], []
         while self.pc < len(self.prog):
             try:
                 self.block()
             except BaseException as e:  # noqa - the top level catches everything
                 self.observe(self.pending or ("Exc:" + type(e).__name__))
                 self.pending = None
-        for g in self.live_gens:
+        for g in self.live_gens + self.susp_gens:
             g.close()
         from . import render as R
         d = R.stack_depth()
@@ -129,9 +134,12 @@ class Interp:
             elif op == "gennext":
                 g = self.live_gens.pop(0)
                 n0 = len(self.gen_results)
-                next(g)
-                g.close()
+                next(g)                      # runs the body up to its yield: the generator stays suspended
+                self.susp_gens.append(g)
                 self.observe("T" if self.gen_results[n0] else "F")
+            elif op == "genclose":
+                self.susp_gens.pop(0).close()
+                self.observe("closed")
             elif op == "makedc":
                 self.DC(a["k"], np.zeros((a["k"],), np.float32))
                 self.observe("constructed")
@@ -159,6 +167,9 @@ class Interp:
                 k = a.get("k", 1)
                 x = np.zeros((k,), np.float32) if op == "call" else np.zeros((2, 2), np.float32)
                 c = a["catches"]
+                if a["kind"] == "bare0":
+                    f_ = f
+                    f = lambda k_, x_: f_()          # no parameter at all
                 if c == "no":
                     if op == "badcall":
                         self.pending = "rejected"
